@@ -461,3 +461,8 @@ add("s-bounds-pair-test-named", S, ["C07", "C01", "C09"], "dfols/solver.py", "  
 # ---- C07-16: one-sided handler (pre-repair form of F07l)
 add("iteration-estimate-handler-names-only-valueerror", F, ["C07"], "dfols/trust_region.py", "    except (ValueError, OverflowError):  # NaN, or an infinite bound (func_tol = 0)\n", "    except ValueError:\n", "C07-16")
 add("s-iteration-estimate-handler-arithmetic-error", S, ["C07"], "dfols/trust_region.py", "    except (ValueError, OverflowError):  # NaN, or an infinite bound (func_tol = 0)\n", "    except (ValueError, ArithmeticError):\n")
+
+# ---- C18-9: strict decrease of rho (pre-repair form of F18e)
+add("alpha1-one-not-rejected", F, ["C18"], "dfols/solver.py", "    if exit_info is None and params(\"tr_radius.alpha1\") >= 1.0:\n        exit_info = ExitInformation(EXIT_INPUT_ERROR, \"tr_radius.alpha1 must be strictly less than 1\")\n", "", "C18-9")
+add("reduce-rho-constant-factor-one", F, ["C18"], "dfols/controller.py", "            new_rho = sqrt(ratio) * self.rhoend", "            new_rho = 1.0 * self.rho", "C18-9")
+add("alpha1-guard-weakened-to-strict", F, ["C07"], "dfols/solver.py", "    if exit_info is None and params(\"tr_radius.alpha1\") >= 1.0:", "    if exit_info is None and params(\"tr_radius.alpha1\") > 1.0:", "weakened-guard")
